@@ -4,7 +4,7 @@
    universe, 140 of them at field / element / key / value / nested position, on every run, and the
    implementation must reject the same ones); it is not proved for the whole inductive family. *)
 From Coq Require Import List NArith Bool.
-From Frugal Require Import Bytes Wire Skip Values Desc Spec Encode Decode Checks Tags State Bitset Alloc DescMap Conc LegacyDefs.
+From Frugal Require Import Bytes Wire Skip Values Desc Spec Encode Decode Checks Tags State Bitset Alloc DescMap Conc LegacyDefs Args.
 From Frugal.gen Require Import Params.
 From Frugal.proofs Require Import GenOk BytesWire EncodeSpec SizeExact SkipPut DecodeSafe DecodeRefines RoundTrip Corollaries StateProofs BitsetProofs AllocProofs DescMapProofs ConcProofs BufferContract.
 From Frugal.props Require Import Examples.
@@ -46,3 +46,34 @@ Example C13_rejections :
   /\ resolve_fields (one GString (fr [49;44;100;101;102;97;117;108;116;44;115;116;114;105;110;103;44;122;101;114;111])) = RErr
   /\ resolve_fields (one GInt16 (fr [49;44;100;101;102;97;117;108;116;44;105])) = RErr.
 Proof. repeat split; vm_compute; reflexivity. Qed.
+
+(* arguments: anything but a struct or a pointer to a struct is refused by all three entry points
+   (EncodedSize by panicking), and DecodeObject moreover insists on a non-nil pointer *)
+Theorem C13_bad_argument : forall a,
+  (forall nil, a <> APtr nil AStruct) -> a <> AStruct ->
+  size_arg a = ArgPanic /\ encode_arg a = ArgError /\ decode_arg a = ArgError.
+Proof.
+  intros a Hp Hs. destruct a as [| |nil e|]; try (repeat split; reflexivity).
+  - contradiction.
+  - destruct e; try (destruct nil; repeat split; reflexivity). exfalso. exact (Hp nil eq_refl).
+Qed.
+
+Theorem C13_decode_argument : forall a, decode_arg a = ArgProceed <-> a = APtr false AStruct.
+Proof.
+  intros a. split.
+  - destruct a as [| |nil e|]; try discriminate. destruct nil; destruct e; try discriminate. reflexivity.
+  - intros ->. reflexivity.
+Qed.
+
+Theorem C13_encode_argument : forall a,
+  (size_arg a = ArgProceed <-> encode_arg a = ArgProceed)
+  /\ (encode_arg a = ArgProceed <-> a = AStruct \/ exists nil, a = APtr nil AStruct).
+Proof.
+  intros a. split.
+  - unfold size_arg, encode_arg. destruct (create_arg_ok a); split; intros H; try reflexivity; discriminate.
+  - split.
+    + destruct a as [| |nil e|]; try discriminate; [left; reflexivity|].
+      destruct e; try (destruct nil; discriminate). intros _. right. exists nil. reflexivity.
+    + intros [-> | [nil ->]]; reflexivity.
+Qed.
+Print Assumptions C13_bad_argument.
